@@ -3,13 +3,13 @@ package main
 // C19 — Video Layers Allocation extension encodes per spec and round-trips.
 //
 //	c19.rt   <vla> <receiver> => <Marshal result> <opt Unmarshal-of-those-bytes-into-receiver result>
-//	         valid allocations: every subset of the (stream, spatial) slots for 1–3 streams, sampled
-//	         (thorough: complete) for 4 streams; temporal counts 1–4; bitrates in every LEB128 size
+//	         valid allocations: every subset of the (stream, spatial) slots for 1–4 streams;
+//	         temporal counts 1–4; bitrates in every LEB128 size
 //	         class; resolution on/off; clean, previously used and arbitrary receivers
 //	c19.rej  same line format; allocations broken in one way (and the literal cases of the tests)
 //	c19.dec  <receiver> <bytes> => <Unmarshal result>   fuzz seeds, test vectors, truncations,
 //	         extensions and bit flips of valid encodings, random strings
-//	c19.dec2 all byte strings of length ≤ 2 (thorough: and a slice of length 3)
+//	c19.dec2 all byte strings of length ≤ 2 (thorough: ≤ 3)
 
 import (
 	"encoding/hex"
@@ -68,21 +68,28 @@ func vlaErrKind(err error) string {
 }
 
 // observeUnmarshal writes `ok <n> <vla>` | `fail <n> <kind>` | `panic` for recv.Unmarshal(b).
-func observeUnmarshal(o *Toks, recv rtp.VLA, b []byte) {
+func observeUnmarshal(o *Toks, recv rtp.VLA, b []byte) string {
 	rr := cloneVLA(recv)
 	buf := cloneBytes(b)
 	var n int
 	var err error
 	if try(func() { n, err = rr.Unmarshal(buf) }) {
 		o.Panic()
-		return
+		return "out=panic"
 	}
 	if err != nil {
 		o.Tok("fail").I64(int64(n)).Tok(vlaErrKind(err))
-		return
+		return "out=" + vlaErrKind(err)
 	}
 	o.Ok().I64(int64(n))
 	writeVLA(o, &rr)
+	switch {
+	case n < len(b):
+		return "out=ok,trailing-bytes"
+	case rr.HasResolutionAndFramerate:
+		return "out=ok,res"
+	}
+	return "out=ok"
 }
 
 // observeRT: Marshal v, then Unmarshal the bytes into (a copy of) recv.
@@ -284,12 +291,8 @@ func genC19RT(x *Ctx) {
 			observeRT(c, v, genReceiver(c))
 		})
 	}
-	// every subset of the slots, 1–3 streams (4 streams: thorough), resolution on and off
-	maxFull := 3
-	if x.Thorough() {
-		maxFull = 4
-	}
-	for count := 1; count <= maxFull; count++ {
+	// every subset of the slots for 1–4 streams, resolution on and off
+	for count := 1; count <= 4; count++ {
 		reps := 1
 		if count <= 2 {
 			reps = 6
@@ -313,7 +316,7 @@ func genC19RT(x *Ctx) {
 		}
 	}
 	// random valid allocations
-	for i, n := 0, x.N(6000, 2000000); i < n; i++ {
+	for i, n := 0, x.N(40000, 2000000); i < n; i++ {
 		x.Case(func(c *Case) {
 			r := c.R
 			count := r.Range(1, 4)
@@ -442,7 +445,7 @@ func genC19Rej(x *Ctx) {
 		}
 	}
 	for how := 0; how <= 10; how++ {
-		for i, n := 0, x.N(400, 100000); i < n; i++ {
+		for i, n := 0, x.N(2000, 100000); i < n; i++ {
 			how := how
 			x.Case(func(c *Case) {
 				v := randValidVLA(c.R)
@@ -473,7 +476,7 @@ func genC19Dec(x *Ctx) {
 			if len(b) == 0 {
 				c.Trivial()
 			}
-			observeUnmarshal(&c.O, recv, b)
+			c.Tag(observeUnmarshal(&c.O, recv, b))
 		})
 	}
 	one(nil, "empty")
@@ -495,7 +498,7 @@ func genC19Dec(x *Ctx) {
 			one(append([]byte{byte(b0)}, t...), "header-sweep")
 		}
 	}
-	for i, n := 0, x.N(12000, 3000000); i < n; i++ {
+	for i, n := 0, x.N(60000, 3000000); i < n; i++ {
 		x.Case(func(c *Case) {
 			r := c.R
 			var b []byte
@@ -520,7 +523,7 @@ func genC19Dec(x *Ctx) {
 					break
 				}
 				b = enc
-				switch r.Intn(5) {
+				switch r.Intn(6) {
 				case 0:
 					c.Tag("valid")
 				case 1:
@@ -535,6 +538,29 @@ func genC19Dec(x *Ctx) {
 				case 3:
 					c.Tag("valid-extended")
 					b = append(append([]byte{}, b...), r.Bytes(r.Range(1, 12))...)
+				case 4:
+					// replace the bytes after the #tl block by LEB128 values that are not minimal or
+					// longer than eight bytes (ReadLeb128's 64-bit accumulator shifts bytes out)
+					c.Tag("valid-overlong-leb")
+					hdr := 1
+					if b[0]&0x0F == 0 {
+						hdr += 1 + int(b[0]>>4&3)/2
+					}
+					hdr += (len(v.ActiveSpatialLayer)-1)/4 + 1
+					if hdr > len(b) {
+						hdr = len(b)
+					}
+					b = append([]byte{}, b[:hdr]...)
+					for k := r.Range(1, 20); k > 0; k-- {
+						n := r.Pick(1, 2, 3, 8, 9, 10, 11, 12)
+						for j := 0; j < n-1; j++ {
+							b = append(b, byte(0x80|r.Pick(0, 0, 0x7F, int(r.Byte()))))
+						}
+						b = append(b, byte(r.Pick(0, 1, 0x7F, int(r.Byte())&0x7F)))
+					}
+					if r.Bool() {
+						b = append(b, r.Bytes(r.Intn(12))...)
+					}
 				default:
 					c.Tag("valid-spliced")
 					b = append([]byte{}, b...)
@@ -552,7 +578,7 @@ func genC19Dec(x *Ctx) {
 			if len(b) == 0 {
 				c.Trivial()
 			}
-			observeUnmarshal(&c.O, recv, b)
+			c.Tag(observeUnmarshal(&c.O, recv, b))
 		})
 	}
 }
@@ -570,7 +596,7 @@ func genC19Dec2(x *Ctx) {
 				c.Trivial()
 			}
 			c.Tag("len=" + strconv.Itoa(len(b)))
-			observeUnmarshal(&c.O, recv, b)
+			c.Tag(observeUnmarshal(&c.O, recv, b))
 		})
 	}
 	one(nil)
@@ -583,11 +609,11 @@ func genC19Dec2(x *Ctx) {
 		}
 	}
 	if x.Thorough() {
-		// length 3: every header, every second byte, third byte on a grid of the LEB128 / 2-bit boundaries
+		// all strings of length 3
 		for a := 0; a < 256; a++ {
 			for b := 0; b < 256; b++ {
-				for _, d := range []byte{0x00, 0x01, 0x3F, 0x40, 0x7F, 0x80, 0x81, 0xC0, 0xFF} {
-					one([]byte{byte(a), byte(b), d})
+				for d := 0; d < 256; d++ {
+					one([]byte{byte(a), byte(b), byte(d)})
 				}
 			}
 		}
